@@ -628,7 +628,7 @@ func syncChan(d any) chan p2psync.BlockBody {
 	return nil
 }
 
-const stepDeadline = 20 * time.Second
+const stepDeadline = 120 * time.Second
 
 var errNoTimeoutChannel = fmt.Errorf("the driver's timeout channel was not found (reflect lookup by type): timeouts cannot be injected")
 
